@@ -227,6 +227,8 @@ BODY_A = {
     "a13": ['zero if flagF else "Hp"', ("diagonal", '"B" if flagT else "Hp"')],
     "a14": ['g("Hp", "B")', ("offdiagonal", '-"Hp @ A"')],
     "a15": ['"Hp" / 2', ("lower", '"Hp" + "B"'), '"B"'],
+    # a scope function of two *series* (it reads another order of its second argument, so it needs the series itself)
+    "a18": ['lag("Hp", "B") + "Hp" / 2', ("offdiagonal", '-lag("B", "Hp")')],
     "a17": ['"Hp" - ("B" + "Hp @ A")', ("offdiagonal", '"Hp" - ("B".adj - "Hp" / 2)')],
     "a16": [("diagonal", '"Hp" - ("B" + "B".adj) / 2'), ("diagonal", 'zero if flags[index[0]] else "Hp @ A" + "Hp @ A".adj'),
             ("offdiagonal", '-f("Hp")')],
@@ -383,7 +385,22 @@ def run_grammar(case):
             return b_ if b_ is zero else 1.5 * b_
         return a_ if b_ is zero else a_ + 1.5 * b_
 
-    scope = {"f": f, "g": g, "flagT": True, "flagF": False, "flags": [True, False, True, False]}
+    def lag(x, y, index):
+        """x at this index plus y one order lower in the first parameter (needs y as a series)."""
+        a_ = x[index]
+        if index[2] == 0:
+            return a_
+        prev = tuple(index[:2]) + (index[2] - 1,) + tuple(index[3:])
+        b_ = y[prev]
+        if b_ is zero:
+            return a_
+        if b_ is one:
+            b_ = np.eye(sizes[index[0]])
+        if a_ is one:
+            a_ = np.eye(sizes[index[0]])
+        return b_ if a_ is zero else a_ + b_
+
+    scope = {"f": f, "g": g, "lag": lag, "flagT": True, "flagF": False, "flags": [True, False, True, False]}
     bound = (2,) if k == 1 else (1, 1)
     ref = Interp(src, {"H": Hv, in2: Hv2} if in2 else {"H": Hv}, scope, nb, k, zero, one, Dagger)
     names = ref.names()
